@@ -23,7 +23,12 @@ cleanup() { git -C /repo worktree remove --force "$WT" >/dev/null 2>&1; }
 trap cleanup EXIT
 run_demo() { # prints PASS/FAIL
   local wt=$1
-  if [ -f "$SEED/demo/run.sh" ]; then
+  if [ -f "$SEED/demo/CMD" ]; then
+    # CMD: the exact command line of the demonstration's README, run inside a copy of demo/ under <worktree>/seedwork
+    rm -rf "$wt/seedwork/demo-$NAME"; mkdir -p "$wt/seedwork"; cp -r "$SEED/demo" "$wt/seedwork/demo-$NAME"
+    find "$wt/seedwork/demo-$NAME" -name go.mod -exec sed -i "s#=> /tmp/wt-[A-Za-z0-9-]*#=> $wt#" {} \;
+    (cd "$wt/seedwork/demo-$NAME" && timeout 900 sh -e ./CMD) > "/tmp/seed-results/$NAME.demo.$2.log" 2>&1 && echo PASS || echo FAIL
+  elif [ -f "$SEED/demo/run.sh" ]; then
     rm -rf "$wt/seedwork/demo-$NAME"; mkdir -p "$wt/seedwork"; cp -r "$SEED/demo" "$wt/seedwork/demo-$NAME"
     # point the demo module at this worktree
     find "$wt/seedwork/demo-$NAME" -name go.mod -exec sed -i "s#=> /tmp/wt-[A-Za-z0-9-]*#=> $wt#" {} \;
